@@ -1,4 +1,5 @@
 import DriverLib.Basic
+import DriverLib.Flag
 import QV.Model.States
 import QV.Model.Observables
 open Lean Drv QV
@@ -59,13 +60,24 @@ def eval (j : Json) : R Json := do
   let samples ← parseCfgs (← fld j "samples") n
   let cs ← jNatArr (← fld j "cs")
   let h0 := heap0 samples
-  let runOut (f : Bool → THeap n → Nat → THeap n × List Float) : Json :=
-    let r := f false h0 0
-    let ra := f true h0 0
+  -- the OBJECTS passed as `absolute` (per observable: [the one meant as False, the one meant as True]) and as `periodic_bcs`
+  -- ([meant as open, meant as periodic]); absent = the Python singletons
+  let flagPair (k : String) : R (PyFlag × PyFlag) := do
+    match (fldOpt j "flags").bind (fun fj => fldOpt fj k) with
+    | some (.arr #[f0, f1]) => return (← parseFlag f0, ← parseFlag f1)
+    | some _ => throw s!"flags.{k}: expected [flag, flag]"
+    | none => return (.pyBool false, .pyBool true)
+  let fx ← flagPair "sigmaX"
+  let fy ← flagPair "sigmaY"
+  let fz ← flagPair "sigmaZ"
+  let fp ← flagPair "periodic"
+  let runOut (f : PyFlag → THeap n → Nat → THeap n × List Float) (fl : PyFlag × PyFlag) : Json :=
+    let r := f fl.1 h0 0
+    let ra := f fl.2 h0 0
     Json.mkObj [("vals", fListOut r.2), ("after", cfgsOut (r.1.cells 0)),
                 ("vals_abs", fListOut ra.2), ("after_abs", cfgsOut (ra.1.cells 0))]
-  let openOut := cs.map (fun c => exceptOut (samples.mapM (fun σ => neighbourOpenApply (α := Float) c σ)))
-  let perOut := cs.map (fun c => fListOut (samples.map (fun σ => neighbourPeriodicApply (α := Float) c σ)))
+  let openOut := cs.map (fun c => exceptOut (samples.mapM (fun σ => neighbourApplyF (α := Float) fp.1 c σ)))
+  let perOut := cs.map (fun c => exceptOut (samples.mapM (fun σ => neighbourApplyF (α := Float) fp.2 c σ)))
   let pairs ← match fldOpt j "pairs" with
     | some pj => do
       let ps ← (← jArr pj).mapM (fun p => parseCfgs p n)
@@ -74,10 +86,10 @@ def eval (j : Json) : R Json := do
         | _ => throw "pair: expected [vp, v]")
     | none => pure #[]
   return Json.mkObj [
-    ("sigmaX", runOut (sigmaXRun S)),
-    ("sigmaY", runOut (sigmaYRun S)),
-    ("sigmaZ", Json.mkObj [("vals", fListOut (samples.map (sigmaZApply (α := Float) false))),
-                           ("vals_abs", fListOut (samples.map (sigmaZApply (α := Float) true)))]),
+    ("sigmaX", runOut (sigmaXRunF S) fx),
+    ("sigmaY", runOut (sigmaYRunF S) fy),
+    ("sigmaZ", Json.mkObj [("vals", fListOut (samples.map (sigmaZApplyF (α := Float) fz.1))),
+                           ("vals_abs", fListOut (samples.map (sigmaZApplyF (α := Float) fz.2)))]),
     ("open", .arr openOut),
     ("periodic", .arr perOut),
     ("numer", .arr (pairs.map (fun p => cOut (S.numer p.1 p.2)))),
